@@ -133,6 +133,7 @@ inductive FpChild
   | dstif (v : Nat)
   | netinst
   | ohc (desc teid : Nat) (ip : Bytes) (port : Nat)
+  | ohctag (raw : Bytes)   -- an Outer Header Creation with a C-TAG / S-TAG field: go-pfcp's accessor does not decode it; the IE is skipped
   | fpol (s : Bytes)
   | smreq (v : Nat)
 deriving Inhabited
